@@ -131,3 +131,72 @@ Proof.
   setoid_replace (c * pmult (vol_pfx cf) / pmult pr + d * pmult (vol_pfx cf) / pmult pr) with ((c + d) * pmult (vol_pfx cf) / pmult pr) by (field; exact N).
   exact E.
 Qed.
+
+Lemma pair_wells_same_volume cf q pairs : forall ws ws',
+  (forall i j, In (i, j) pairs -> i <> j) ->
+  Forall (Inv cf) ws -> pair_wells_same cf q pairs ws = Ok ws' -> wsum vol ws' == wsum vol ws.
+Proof.
+  induction pairs as [|[i j] t IH]; intros ws ws' Hne Iw H.
+  - simpl in H. inversion H; subst. reflexivity.
+  - simpl in H. destruct (nth_error ws i) as [s|] eqn:Es; [|discriminate].
+    destruct (nth_error ws j) as [d|] eqn:Ed; [|discriminate]. unfold bind in H.
+    destruct (transfer cf s d q) as [[s1 d1]|] eqn:Et; [|discriminate]. simpl in H.
+    pose proof (Forall_nth_error _ _ _ _ Iw Es) as Hs. pose proof (Forall_nth_error _ _ _ _ Iw Ed) as Hd.
+    destruct (transfer_inv cf s d q s1 d1 Hs Hd Et) as [Hs1 Hd1].
+    assert (Hij : i <> j) by (apply Hne; left; reflexivity).
+    apply IH in H; [| intros; apply Hne; right; assumption | apply Forall_set_nth; [apply Forall_set_nth|]; assumption].
+    rewrite H.
+    assert (Ed' : nth_error (set_nth i s1 ws) j = Some d) by (rewrite nth_error_set_nth_other; assumption).
+    rewrite (wsum_set_nth vol j d d1 _ Ed'), (wsum_set_nth vol i s s1 ws Es).
+    pose proof (transfer_volume cf s d q s1 d1 Hs Hd Et). lra.
+Qed.
+
+(* source and destination regions on one plate: the plate's wells hold the same volume in all afterwards *)
+Theorem p_to_p_same_volume cf p rs rd q p' :
+  PInv cf p -> p_to_p_same cf p rs rd q = Ok p' -> wsum vol (wells p') == wsum vol (wells p).
+Proof.
+  unfold p_to_p_same, PInv. intros Ip H.
+  destruct (overlaps _ _) eqn:Eov; [discriminate|]. pose proof (overlaps_false _ _ Eov) as Hdis.
+  destruct (region_idx (ncols p) rs) as [|s0 st] eqn:Esi; [discriminate|].
+  destruct (region_idx (ncols p) rd) as [|d0 dt] eqn:Edi; [discriminate|].
+  unfold bind in H. destruct (dispatch rs rd _ _) as [pg|] eqn:Edis; [|discriminate].
+  destruct pg.
+  - destruct (nth_error (wells p) s0) as [src|] eqn:Esrc; [|discriminate].
+    destruct (fold_wells _ (d0 :: dt) src (wells p)) as [[src' ws]|] eqn:E; [|discriminate]. inversion H; subst; simpl; clear H.
+    set (f := fun s w : container => transfer cf s w q) in *.
+    pose proof (Forall_nth_error _ _ _ _ Ip Esrc) as Isrc.
+    destruct (fold_wells_frame f _ _ _ _ _ E) as [Hl Hfr].
+    assert (Hs0 : ~ In s0 (d0 :: dt)) by (intro Hin; apply (Hdis s0 s0); [left; reflexivity | exact Hin | reflexivity]).
+    assert (Esrc' : nth_error ws s0 = Some src) by (rewrite Hfr; assumption).
+    rewrite (wsum_set_nth vol s0 src src' _ Esrc').
+    assert (C : vol src' + wsum vol ws == vol src + wsum vol (wells p)).
+    { apply (fold_wells_conserve f (Inv cf) (Inv cf) vol vol) with (idxs := d0 :: dt); auto.
+      intros a w a' w' Ha Hw Hf. destruct (transfer_inv cf a w q a' w' Ha Hw Hf) as [Ia Iw]. split; [exact Ia|]. split; [exact Iw|].
+      apply (transfer_volume cf a w q a' w' Ha Hw Hf). }
+    lra.
+  - destruct (nth_error (wells p) d0) as [dst|] eqn:Edst; [|discriminate].
+    destruct (fold_wells _ (s0 :: st) dst (wells p)) as [[dst' ws]|] eqn:E; [|discriminate]. inversion H; subst; simpl; clear H.
+    set (f := fun d w : container => match transfer cf w d q with Ok sd => Ok (snd sd, fst sd) | Err e => Err e end) in *.
+    assert (Hf' : forall a w a' w', f a w = Ok (a', w') -> transfer cf w a q = Ok (w', a')).
+    { intros a w a' w' Hf. unfold f in Hf. destruct (transfer cf w a q) as [[x y]|]; [|discriminate]. simpl in Hf. inversion Hf; reflexivity. }
+    pose proof (Forall_nth_error _ _ _ _ Ip Edst) as Idst.
+    destruct (fold_wells_frame f _ _ _ _ _ E) as [Hl Hfr].
+    assert (Hd0 : ~ In d0 (s0 :: st)) by (intro Hin; apply (Hdis d0 d0); [exact Hin | left; reflexivity | reflexivity]).
+    assert (Edst' : nth_error ws d0 = Some dst) by (rewrite Hfr; assumption).
+    rewrite (wsum_set_nth vol d0 dst dst' _ Edst').
+    assert (C : vol dst' + wsum vol ws == vol dst + wsum vol (wells p)).
+    { apply (fold_wells_conserve f (Inv cf) (Inv cf) vol vol) with (idxs := s0 :: st); auto.
+      intros a w a' w' Ha Hw Hf. apply Hf' in Hf. destruct (transfer_inv cf w a q w' a' Hw Ha Hf) as [Iw Ia]. split; [exact Ia|]. split; [exact Iw|].
+      pose proof (transfer_volume cf w a q w' a' Hw Ha Hf). lra. }
+    lra.
+  - destruct (pair_wells_same cf q _ (wells p)) as [ws|] eqn:E; [|discriminate]. inversion H; subst; simpl; clear H.
+    assert (Hne : forall i j, In (i, j) (combine (s0 :: st) (d0 :: dt)) -> i <> j).
+    { intros i j Hin. apply in_combine_both in Hin. apply Hdis; tauto. }
+    apply (pair_wells_same_volume cf q _ _ _ Hne Ip E).
+Qed.
+(* so the plate reports the same total, in any unit *)
+Theorem p_to_p_same_reported_volume cf p rs rd q p' pr :
+  PInv cf p -> p_to_p_same cf p rs rd q = Ok p' -> plate_get_volume cf p' pr == plate_get_volume cf p pr.
+Proof.
+  intros Ip H. rewrite !plate_get_volume_scale. rewrite (p_to_p_same_volume cf p rs rd q p' Ip H). reflexivity.
+Qed.
